@@ -559,3 +559,49 @@ class C18(RunSpec):
             ("C18.eval_based_gsc_reached_with_hibernation", 1, "evaluation-based GSC reached with hibernation on"),
             ("C18.fresh_deme_flag_checked_intermediate", 1, "freshly created intermediate deme"),
         ]
+
+
+class DirectSpec(Spec):
+    """Direct calls of pure components on generated / adversarial inputs, compared with a reference model."""
+
+    module = None
+
+    def _mod(self):
+        import importlib
+
+        return importlib.import_module(f"vlib.monitors.{self.module}")
+
+    def make_case(self, seed, idx, tier):
+        return self._mod().make_case(seed, idx, tier)
+
+    def run_case(self, desc):
+        from . import env
+
+        env.import_pyhms()
+        return self._mod().run_case(desc)
+
+
+C17_POINT_CLASSES = [
+    "interior", "on-lower-face", "on-upper-face", "ulp-inside-lower", "ulp-inside-upper", "ulp-outside-lower", "ulp-outside-upper",
+    "multiple-of-range-from-lower", "multiple-of-range-from-upper", "multiple-of-range-from-lower-ulp", "multiple-of-range-from-upper-ulp",
+    "half-period", "far", "slightly-outside",
+]
+
+
+@register
+class C17(DirectSpec):
+    prop = "C17"
+    module = "c17"
+    rule = (
+        "apply_bounds called directly on whole 2-D arrays mixing interior / face / ulp-neighbour / multiple-of-range / half-period / far "
+        "points for boxes of every class; exact rational oracle; distinct non-trivial = distinct (method, box class, point class) cells with >=1 input outside the box"
+    )
+    sizes = {"quick": 210, "thorough": 21000}
+    budgets = {"quick": 60.0, "thorough": 900.0}
+    assumptions = [
+        "floats are treated as exact rationals (fractions.Fraction); tolerance for moved coordinates is 8*eps*(|x|+|lower|+|upper|), vacuous when it exceeds the range",
+        "only finite inputs and boxes with lower < upper",
+    ]
+
+    def floors(self, tier):
+        return [(f"cell.{m}.{b}.{pc}", 1, "cell populated") for m in ("clip", "reflect", "toroidal") for b in gen.BOX_CLASSES for pc in C17_POINT_CLASSES]
